@@ -1,6 +1,8 @@
 CONSTANTS
   MaxLen = 2
   MaxDim = 3
+  KindsB = {"reduce", "adv"}
+  Rich = FALSE
 INIT Init2
 NEXT Next
 INVARIANT LowerCorrect2
